@@ -175,6 +175,15 @@ def port_programs(tier):
     base += check_c04.g_modes()          # every addressing form x char / signed char / 16-bit arrays x X / Y / constant index
     import families3
     base += [p for p in families3.g_retest('quick') if '+=X' not in p.pid]       # read / store-not-through-A / read again
+    # comparisons of X / Y with a variable (CPX / CPY read it), as conditions and as loop bounds
+    from cast import If, For, Assign, Inc, ExprS, Block
+    from families import V, C, A, B, mkprog
+    for rn, op in itertools.product(('X', 'Y'), ('<', '>=', '==', '!=', '<=', '>')):
+        base.append(mkprog('regcmp/%s%sva' % (rn, op), [If(B(op, V(rn), V('va')), A(V('vc'), C(1)), A(V('vc'), C(2)))]))
+        base.append(mkprog('regcmp/va%s%s' % (op, rn), [If(B(op, V('va'), V(rn)), A(V('vc'), C(1)), A(V('vc'), C(2)))]))
+    for rn in ('X', 'Y'):
+        base.append(mkprog('regcmp/for-%s-ne' % rn, [A(V('va'), B('&', V('va'), C(3))), For(Assign(V(rn), '=', C(0)), B('!=', V(rn), V('va')), Inc('++', False, V(rn)), ExprS(Inc('++', False, V('vc'))))]))
+        base.append(mkprog('regcmp/for-%s-lt' % rn, [A(V('va'), B('&', V('va'), C(3))), For(Assign(V(rn), '=', C(0)), B('<', V(rn), V('va')), Inc('++', False, V(rn)), A(V('vc'), V(rn), '+='))]))
     out = []
     # excluded: statements whose effect depends on the incidental accumulator content (store/load), and index registers loaded from memory
     # (the index would leave the array: undefined in C, and the two placements then touch different ports)
